@@ -148,6 +148,35 @@ def run(pid, tier, seed, gate, replay=None):
                                                    broken=f"Coq gate for Props/{pid}.v: {gate['failed']}",
                                                    note=f"oracle search over {len(scripts)} scripts found no failing input"))
         violations.append(dict(replay=rp, nofail=True, what=gate["failed"]))
+    extra_cov = {}
+    if pid == "C17" and not replay:
+        # the in-flight table is keyed by (hash, key) as well: colliding keys must not be coalesced
+        from . import fetch as F
+        C.build_harness(["fetchtrace"])
+        rng = random.Random(seed + 17)
+        fs = []
+        for _ in range(1500 if tier == "thorough" else 250):
+            algo = rng.choice(F.ALGOS)
+            hd, hm, sh = rng.choice([(1000, 1, 1), (1000, 1, 2), (2, 1, 1), (1, 2, 2)])
+            fs.append(F.cfg_line(algo, 3, hd, hm, sh) + "\n" + "\n".join(F.gen_random(rng, rng.choice([8, 16, 30]), 3)) + "\n")
+        fres = F.run_many(fs)
+        fbad = [(i, F.oracle_c06(r[0])) for i, r in enumerate(fres)]
+        fbad = [(i, o) for i, o in fbad if o is not None]
+        fmm = [(i, F.first_mismatch(r[0], r[1])) for i, r in enumerate(fres)]
+        fmm = [(i, m) for i, m in fmm if m is not None]
+        if fbad and not failing:
+            i, o = min(fbad, key=lambda t: len(fs[t[0]]))
+            rp = C.write_replay(pid, seed, "fetch", dict(property=pid, stream="fetchtrace/colliding-hasher", script=fs[i],
+                                                        impl_obs=fres[i][0], model_obs=fres[i][1],
+                                                        oracle=dict(failed_at=o[0], what=o[1]), broken=None))
+            violations.append(dict(replay=rp, what=o[1]))
+        elif fmm and not failing and not mism:
+            i, m = fmm[0]
+            rp = C.write_replay(pid, seed, "fetch", dict(property=pid, stream="fetchtrace/colliding-hasher", script=fs[i],
+                                                        impl_obs=fres[i][0], model_obs=fres[i][1], oracle=None,
+                                                        broken=f"correspondence fetchtrace (colliding hashers) differs at action {m}"))
+            violations.append(dict(replay=rp, nofail=True, what=f"fetchtrace correspondence broken at action {m}"))
+        extra_cov = dict(fetch_scripts_with_colliding_hashers=len(fs))
     sample = results[min(len(results) - 1, 7)] if results else None
     cov = dict(
         evaluations=len(scripts), distinct_nontrivial=len(nontrivial),
@@ -156,7 +185,7 @@ def run(pid, tier, seed, gate, replay=None):
         samples=[dict(script=scripts[min(len(scripts) - 1, 7)].strip().split("\n")[:12],
                       impl_first_lines=(sample[0][:4] if sample else []))],
         traces_validated_against_impl=len(scripts) - len(mism) - len(failing),
-        input_distribution=dict(per_algorithm=dist, situations=flagcount),
+        input_distribution=dict(per_algorithm=dist, situations=flagcount, **extra_cov),
         exhaustive=False,
     )
     return cov, violations, ASSUME
